@@ -20,10 +20,22 @@ MUTANTS = [
     ("M11", "C11", "Hash/HashDAC.cpp", "  uint *bitmap = new uint[b_size];\n  for (size_t i = 0; i < b_size; i++)", "  static uint *bitmap = nullptr; static size_t cap = 0;\n  if (cap < b_size) { delete[] bitmap; bitmap = new uint[b_size]; cap = b_size; }\n  for (size_t i = 0; i < b_size; i++)", "static scratch bitmap shared by block builders"),
 ]
 # M6 needs the lambda to append instead of filling the slot
+MUTANTS += [
+    ("M12", "C14", "StringDictionaryPFC.cpp", "uchar *StringDictionaryPFC::extract(size_t id, uint *strLen) {\n  if ((id > 0) && (id <= elements)) {\n", "static size_t lastId = 0; static uint lastLen = 0; static uchar lastStr[8192];\nuchar *StringDictionaryPFC::extract(size_t id, uint *strLen) {\n  if (id != 0 && id == lastId) { uchar *c = new uchar[lastLen + 1]; memcpy(c, lastStr, lastLen + 1); *strLen = lastLen; return c; }\n  if ((id > 0) && (id <= elements)) {\n", "result cache keyed by id only, shared by all PFC instances"),
+    ("M13", "C14", "RePair/RePair.cpp", "  str[strLen] = 0;\n\n  return cmp;\n}\n\nint RePair::extractStringAndCompareDAC", "  if (cmp != 0) str[strLen] = 0;\n\n  return cmp;\n}\n\nint RePair::extractStringAndCompareDAC", "terminator only restored after a failed comparison"),
+    ("M14", "C08", "StringDictionaryPFC.cpp", "  saveValue<uchar>(out, textStrings, bytesStrings);\n", "  saveValue<uchar>(out, textStrings, bytesStrings);\n  if (bytesStrings > 8 && textStrings[bytesStrings - 2] != 0) textStrings[bytesStrings - 2] ^= 1;\n", "save flips a byte of the object after writing it"),
+    ("M15", "C08", "utils/LogSequence.cpp", "  array = new size_t[arraysize];\n  for (size_t i = 0; i < arraysize; i++)\n    array[i] = 0;\n\n  for (size_t i = 0; i < numentries; i++)", "  array = new size_t[arraysize];\n  for (size_t i = 0; i + 1 < arraysize; i++)\n    array[i] = 0;\n  if (arraysize) array[arraysize - 1] &= ~(size_t)0 << ((numbits * numentries) % 64 ? (numbits * numentries) % 64 : 0);\n\n  for (size_t i = 0; i < numentries; i++)", "last word of a packed array only cleared below the used bits"),
+    ("M16", "C06", "StringDictionaryPFC.cpp", "  dict->buckets = loadValue<uint32_t>(in);", "  dict->buckets = (uint32_t)loadValue<uint64_t>(in);", "loader reads a 32-bit field as 64 bits"),
+    ("M17", "C06", "StringDictionaryRPDAC.cpp", "  dict->maxlength = loadValue<uint32_t>(in);", "  loadValue<uint32_t>(in);", "loader forgets maxlength"),
+    ("M18", "C16", "StringDictionaryRPDAC.cpp", "  if (type != RPDAC)\n    return NULL;", "  if (type != RPDAC && type != PFC)\n    return NULL;", "RPDAC loader also accepts PFC images"),
+    ("M19", "C16", "StringDictionaryPFC.cpp", "IteratorDictID *StringDictionaryPFC::locateSubstr(uchar *, uint) {\n  std::cerr << \"This dictionary does not provide substring location\"\n            << std::endl;\n  return NULL;", "IteratorDictID *StringDictionaryPFC::locateSubstr(uchar *, uint) {\n  std::cerr << \"This dictionary does not provide substring location\"\n            << std::endl;\n  return new IteratorDictIDContiguous(1, 1);", "stub fabricates an iterator"),
+    ("M20", "C07", "utils/Utils.h", "  uchar *xarr = new uchar[llen];\n  memcpy(xarr, *array, len);", "  uchar *xarr = new uchar[llen];\n  memcpy(xarr, *array, llen);", "Reallocate copies twice the old length"),
+]
+M12_EXTRA = ("StringDictionaryPFC.cpp", "    *strLen = decLen;\n    return decoded;\n  } else {\n    *strLen = 0;\n    return NULL;\n  }\n}\n\nIteratorDictID *StringDictionaryPFC::locatePrefix", "    *strLen = decLen;\n    if (decLen < 8192) { lastId = id; lastLen = decLen; memcpy(lastStr, decoded, decLen + 1); }\n    return decoded;\n  } else {\n    *strLen = 0;\n    return NULL;\n  }\n}\n\nIteratorDictID *StringDictionaryPFC::locatePrefix")
 M2_EXTRA = (W, "      task();\n    }\n    queue_cv.notify_all();", "      task();\n    }")
 M3_EXTRA = (W, "      std::unique_lock<std::mutex> ul(shared_mutex);", "      bool ready = stopped() || !queue.empty();\n      std::unique_lock<std::mutex> ul(shared_mutex);")
 M7_EXTRA = [(BL, "              parts[next_part_index] = sd;", "              parts[next_part_index] = sd;\n              starting_indexes.push_back(first_id);"),
             (BL, "  bool sample_next = true;", "  bool sample_next = true;\n  unsigned long first_id = 0;"),
             (BL, "[this, next_part_index, sub_it, overhead, &m, &parts_done, &cv]", "[this, next_part_index, first_id, sub_it, overhead, &m, &parts_done, &cv]")]
 M11_EXTRA = ("Hash/HashDAC.cpp", "  delete[] bitmap;\n  delete[] hashtable;", "  delete[] hashtable;")
-EXTRAS = {"M2": [M2_EXTRA], "M3": [M3_EXTRA], "M7": M7_EXTRA, "M11": [M11_EXTRA]}
+EXTRAS = {"M2": [M2_EXTRA], "M3": [M3_EXTRA], "M7": M7_EXTRA, "M12": [M12_EXTRA], "M11": [M11_EXTRA]}
